@@ -64,6 +64,13 @@ def handleRes (op : String) (args : List String) : Option String :=
       let bs ← ofHex h
       pure (showCost (decide (10 ≤ bs.length) && (IB.obtain bs).isSome) ibCost)
     | _ => none
+  -- each integrity-block entry point alone; where the file handle stood before the call does not matter (both seek absolutely)
+  | "c10.ib.obtain" => match args with
+    | [h, _] => do pure (showCost (IB.obtain (← ofHex h)).isSome ibCost)
+    | _ => none
+  | "c10.ib.has" => match args with
+    | [h, _] => do pure (showCost (decide (10 ≤ (← ofHex h).length)) ibCost)
+    | _ => none
   | "c10.verify" => do
     let (e, rest) ← parseExchange args
     match rest with
